@@ -85,6 +85,65 @@ mod c19 {
     dn!(c19_delegates_0101, [0u8, 1, 0, 1]);
     dn!(c19_delegates_0112, [0u8, 1, 1, 2]);
 
+    /// The whole validation funnel `RawDoc::verified` (what `TryFrom<RawDoc> for Doc`, JSON loading
+    /// and `Doc::edit` round-trips all go through) on a raw document whose delegate list has the
+    /// equality pattern `pat` and whose threshold is any usize: a `Doc` comes back only with
+    /// pairwise-distinct delegates and `1 <= threshold <= #distinct delegates`, carries exactly
+    /// the given threshold, and every raw document satisfying that is accepted.
+    fn rawdoc_verified(pat: &[u8]) {
+        use radicle::identity::doc::RawDoc;
+        let len = pat.len();
+        let mut input = Vec::with_capacity(len);
+        let mut distinct = 0usize;
+        let mut seen = [false; 3];
+        let mut i = 0;
+        while i < len {
+            input.push(key(pat[i]));
+            if !seen[pat[i] as usize] {
+                seen[pat[i] as usize] = true;
+                distinct += 1;
+            }
+            i += 1;
+        }
+        let t: usize = kani::any();
+        let mut accepted = false;
+        match RawDoc::verif_raw(input, t).verified() {
+            Ok(doc) => {
+                accepted = true;
+                assert!(doc.delegates().len() == distinct, "C19: verified document keeps a duplicate delegate or drops a distinct one");
+                assert!(doc.threshold() >= 1, "C19: verified document with threshold 0");
+                assert!(doc.threshold() <= doc.delegates().len(), "C19: verified document whose threshold exceeds its distinct delegates");
+                assert!(doc.threshold() == t, "C19: verified document carries a different threshold");
+                std::mem::forget(doc);
+            }
+            Err(e) => {
+                assert!(len == 0 || t == 0 || t > distinct, "C19: valid raw document rejected");
+                std::mem::forget(e);
+            }
+        }
+        // vacuity witness: the acceptance branch is reached with the largest valid threshold
+        kani::cover!(len == 0 || (accepted && t == distinct));
+    }
+
+    macro_rules! rv {
+        ($name:ident, $pat:expr) => {
+            #[kani::proof]
+            #[kani::unwind(34)]
+            fn $name() {
+                rawdoc_verified(&$pat)
+            }
+        };
+    }
+    rv!(c19_rawdoc_empty, [0u8; 0]);
+    rv!(c19_rawdoc_0, [0u8]);
+    rv!(c19_rawdoc_00, [0u8, 0]);
+    rv!(c19_rawdoc_01, [0u8, 1]);
+    rv!(c19_rawdoc_001, [0u8, 0, 1]);
+    rv!(c19_rawdoc_010, [0u8, 1, 0]);
+    rv!(c19_rawdoc_012, [0u8, 1, 2]);
+    rv!(c19_rawdoc_0120, [0u8, 1, 2, 0]);
+    rv!(c19_rawdoc_0011, [0u8, 0, 1, 1]);
+
     /// Supported versions are exactly 1..=IDENTITY_VERSION, for every u32.
     #[kani::proof]
     fn c19_version_new() {
